@@ -1033,6 +1033,11 @@ def _int(ex, fv_, args, kwargs, fr, node):
     raise Unsupported(f"int() of {v.ty}")
 
 
+@handler("bool")
+def _bool(ex, fv_, args, kwargs, fr, node):
+    return vbool(ex.truth(args[0])) if args else vbool(False)
+
+
 @handler("float")
 def _float(ex, fv_, args, kwargs, fr, node):
     return ex.coerce(args[0], "fl")
@@ -1144,7 +1149,10 @@ def _dget(ex, fv_, args, kwargs, fr, node):
         if fn_ is not None:
             return fn_
         has = rec_has(ex, d, ks).t
-        return ex.ite(has, rec_get(ex, d, ks), default)
+        val = rec_get(ex, d, ks)
+        if default.ty.kind == "none" and val.ty.kind == "bool":
+            default = vbool(False)       # an option that is absent or None is falsy; only its truth value is used
+        return ex.ite(has, val, default)
     # obj.__dict__.get("name", default)
     if ks in d.meta["over"]:
         return d.meta["over"][ks]
